@@ -124,6 +124,39 @@ Definition c2t_okb (gap : token) (tokens classes out : list token) : bool :=
 Definition unchangedb (before after : list token) : bool := toks_eqb before after.
 Definition unchangedzb (before after : list Z) : bool := zs_eqb before after.
 
+(* one call of a HISTORY of calls made in one process on different segmentations of the same
+   characters (and the same tokens with different cldf settings): the implementation's
+   tokens2class, sonority profile, prosodic_string, prosodic_weights for [ps_toks].  The model is
+   stateless, so every step is compared with the model applied to that step's own tokens; state
+   carried between calls by the implementation shows up as a step whose lengths are wrong. *)
+Record pstep := mk_pstep {
+  ps_cldf : bool;
+  ps_toks : list token;
+  ps_cls : res (list token);
+  ps_son : res (list Z);
+  ps_out : res (list Z);
+  ps_weights : res (list Q);
+  ps_after : list token }.
+
+Definition pstep_corr (conv : token -> option token) (st di : char -> bool) (p : pstep) : bool :=
+  res_eqb toks_eqb (tokens2class conv st di (ps_cldf p) (ps_toks p)) (ps_cls p)
+  && res_eqb zs_eqb (sonority conv st di (ps_cldf p) (ps_toks p)) (ps_son p)
+  && res_eqb zs_eqb (prosodic_string_tokens conv st di (ps_cldf p) OTrue (ps_toks p)) (ps_out p)
+  && match ps_out p with
+     | Ok s => res_eqb qs_eqb (prosodic_weights [] s) (ps_weights p)
+     | _ => true
+     end.
+
+(* len(prosodic_string) == len(tokens) == len(weights) == len(sonority profile) *)
+Definition pstep_lenb (p : pstep) : bool :=
+  match ps_son p with
+  | Ok l => len_okb (ps_son p) (ps_toks p) && len_okb (ps_out p) (ps_toks p)
+            && len_okb (ps_weights p) (ps_toks p)
+  | ValueErr =>      (* only unknown sounds: tokens2class itself raised *)
+    negb (is_ok (ps_cls p)) && (negb (is_ok (ps_out p)) || negb (nonemptyb (ps_toks p)))
+  | _ => false
+  end.
+
 Inductive seq_case :=
 | CIpa (ks : kwstrings) (s : list char) (runs : list ipa_run)
 | CT2C (tbl : list (token * token)) (stress diacs : list char) (cldf : bool) (toks : list token)
@@ -132,6 +165,7 @@ Inductive seq_case :=
         (l_after : list Z)
 | CProsTok (art : list (token * token)) (stress diacs : list char) (toks : list token)
            (cls : res (list token)) (son : res (list Z)) (out : res (list Z)) (toks_after : list token)
+| CProsSeq (art : list (token * token)) (stress diacs : list char) (steps : list pstep)
 | CC2T (gap : token) (tokens classes : list token) (out : list token)
        (pre suf : list token) (outl : list token)
        (out2 outl2 : list token) (tokens_after classes_after : list token).
@@ -166,7 +200,7 @@ Definition seq_case_code (c : seq_case) : nat :=
     let conv := assoc_find art in
     bit 0 (res_eqb toks_eqb (tokens2class conv (memc stress) (memc diacs) false toks) cls
            && res_eqb zs_eqb (sonority conv (memc stress) (memc diacs) false toks) son
-           && res_eqb zs_eqb (prosodic_string_tokens conv (memc stress) (memc diacs) OTrue toks) out)
+           && res_eqb zs_eqb (prosodic_string_tokens conv (memc stress) (memc diacs) false OTrue toks) out)
     + bit 3 (match son with
              | Ok l => len_okb son toks && len_okb out toks
              | ValueErr =>      (* only unknown sounds: tokens2class itself raised *)
@@ -174,6 +208,11 @@ Definition seq_case_code (c : seq_case) : nat :=
              | _ => false
              end)
     + bit 5 (unchangedb toks toks_after)
+  | CProsSeq art stress diacs steps =>
+    let conv := assoc_find art in
+    bit 0 (forallb (pstep_corr conv (memc stress) (memc diacs)) steps)
+    + bit 3 (forallb pstep_lenb steps)
+    + bit 5 (forallb (fun p => unchangedb (ps_toks p) (ps_after p)) steps)
   | CC2T gap tokens classes out pre suf outl out2 outl2 tokens_after classes_after =>
     bit 0 (toks_eqb (class2tokens gap tokens classes) out
            && toks_eqb (class2tokens_local gap tokens pre classes suf) outl
